@@ -13,8 +13,19 @@
  *       meta | setft k | setfmt k | setfprec p | setdprec p
  *   conv <src> <dst> <newtype>
  *   reset                         (free both objects, allocate two fresh ones)
- * List arguments shorter than what the library reads are padded with zeros (the model does the
- * same: nth i l 0).
+ * Caller's vectors.  The harness is the caller of the vector-taking setters; the library cannot
+ * check the length of the buffer it is handed.  For the ops above the harness always supplies a
+ * buffer of exactly max(N, documented length) elements - the N listed values followed by zeros,
+ * no slack behind them, so that a library that read more than the documented number of elements
+ * would be reported by ASan - and the model's unchecked step does the same completion (nth i l 0):
+ * the zeros are the harness's, not a statement about the library.
+ * An op name with '!' appended (setfv! setmat! setfromvec! setz0v! setfz0v!) passes a heap buffer of
+ * exactly the N listed elements (N >= 1), short or not: the caller error that DataModel.step_chk models as
+ * RFault (ASan: heap-buffer-overflow READ in the library's copy).  Used by the "caller vectors"
+ * part of checks/C15.py only; each such script is run in a process of its own.
+ * The output buffer of gettovec has exactly `frequencies` elements (at least one).
+ * The harness and the library are compiled without VNADATA_NO_BOUNDS_CHECK (the inline accessors
+ * of vnadata.h keep their index tests; checks/C15.py verifies that nothing defines the macro).
  *
  * Output per op:  "R <ret> <errno> <callbacks> <payload>" and "D <o> <digest>" where the digest is
  * taken through the public getters (type, dimensions, every frequency, every cell, z0 mode, every
@@ -197,11 +208,13 @@ static void digest(int o, vnadata_t *vdp)
 }
 
 /* ------------------------------------------------------------------ run mode */
+static int exact_buffer;	/* op name ended in '!': the buffer has exactly the listed elements */
+
 static double complex *vlist(int needed)
 {
     int n = nint();
-    int size = (n > needed ? n : needed) + 8;
-    double complex *v = calloc(size, sizeof(double complex));
+    int size = exact_buffer ? n : (n > needed ? n : needed);
+    double complex *v = calloc(size > 0 ? size : 1, sizeof(double complex));
 
     for (int i = 0; i < n; ++i) {
 	v[i] = nval();
@@ -315,6 +328,23 @@ static int run(void)
 	o = atoi(first);
 	vdp = vd[o];
 	name = next();
+	exact_buffer = 0;
+	{
+	    size_t len = strlen(name);
+
+	    if (len > 1 && name[len - 1] == '!') {
+		static char stripped[64];
+
+		if (len >= sizeof(stripped)) {
+		    fprintf(stderr, "harness: unknown op %s\n", name);
+		    return 3;
+		}
+		memcpy(stripped, name, len - 1);
+		stripped[len - 1] = '\0';
+		name = stripped;
+		exact_buffer = 1;
+	    }
+	}
 	{
 	    int rows = vnadata_get_rows(vdp), cols = vnadata_get_columns(vdp);
 	    int freqs = vnadata_get_frequencies(vdp);
@@ -351,7 +381,8 @@ static int run(void)
 		printf("\n");
 	    } else if (strcmp(name, "setfv") == 0) {
 		int n = nint();
-		double *v = calloc((n > freqs ? n : freqs) + 8, sizeof(double));
+		int size = exact_buffer ? n : (n > freqs ? n : freqs);
+		double *v = calloc(size > 0 ? size : 1, sizeof(double));
 		for (int i = 0; i < n; ++i) {
 		    v[i] = (double)nint();
 		}
@@ -373,7 +404,7 @@ static int run(void)
 		free(v);
 	    } else if (strcmp(name, "gettovec") == 0) {
 		int r = nint(), c = nint();
-		double complex *v = calloc(freqs + 8, sizeof(double complex));
+		double complex *v = calloc(freqs > 0 ? freqs : 1, sizeof(double complex));
 		int rc = vnadata_get_to_vector(vdp, r, c, v);
 		if (rc == 0) {
 		    rvec(v, freqs);
